@@ -26,7 +26,7 @@ from pyvc.contracts import Case, contract
 from pyvc.values import SObj
 from contracts.c05_format_cast import Built
 
-PROPS = ("C03", "C07", "C08")
+PROPS = ("C03", "C07", "C08", "C06")  # C06: sensitivity inference sees index signals only through this traversal
 R, W, P = AccessFlags.READ, AccessFlags.WRITE, AccessFlags.PUSH
 
 
